@@ -118,6 +118,10 @@ type SourcePlan struct {
 	// source (what gxz and most file-reading callers pass; it offers ReadByte,
 	// Peek, Discard and WriteTo)
 	Bufio int `json:"bufio,omitempty"`
+	// Zero > 0: about one call in Zero returns (0, nil) - "nothing happened",
+	// which io.Reader allows (and discourages) - at most three times in a row,
+	// before the source goes on as planned.
+	Zero int `json:"zero,omitempty"`
 }
 
 // Source is a fragmenting, fault-injecting io.Reader over a byte image.
@@ -126,6 +130,9 @@ type Source struct {
 	img      []byte
 	off      int
 	rng      *sim.Rng
+	zrng     *sim.Rng
+	zeroRun  int
+	Zeros    int // calls that returned (0, nil)
 	failed   bool
 	onceDone bool
 	Err      *InjectedError
@@ -141,7 +148,7 @@ type Source struct {
 
 // NewSource creates a source.
 func NewSource(img []byte, p SourcePlan) *Source {
-	return &Source{Plan: p, img: img, rng: sim.NewRng(p.FragSeed), Err: &InjectedError{Kind: "source-EIO"}}
+	return &Source{Plan: p, img: img, rng: sim.NewRng(p.FragSeed), zrng: sim.NewRng(p.FragSeed ^ 0x5a45524f), Err: &InjectedError{Kind: "source-EIO"}}
 }
 
 // Reader returns the io.Reader handed to the library: the source behind a
@@ -168,14 +175,16 @@ func (r byteSource) Read(p []byte) (int, error) { return r.s.Read(p) }
 // reported by the next call (the simulated failures and EOF are repeatable).
 func (r byteSource) ReadByte() (byte, error) {
 	var b [1]byte
-	n, err := r.s.Read(b[:])
-	if n == 1 {
-		return b[0], nil
+	for i := 0; i < 8; i++ {
+		n, err := r.s.Read(b[:])
+		if n == 1 {
+			return b[0], nil
+		}
+		if err != nil {
+			return 0, err
+		}
 	}
-	if err == nil {
-		err = io.ErrNoProgress
-	}
-	return 0, err
+	return 0, io.ErrNoProgress
 }
 
 // Offset returns the number of bytes delivered so far.
@@ -194,6 +203,14 @@ func (s *Source) Read(p []byte) (int, error) {
 		s.Fired++
 		s.BareFired++
 		return 0, s.Err
+	}
+	if s.Plan.Zero > 0 {
+		if s.zeroRun < 3 && s.zrng.Intn(s.Plan.Zero) == 0 {
+			s.zeroRun++
+			s.Zeros++
+			return 0, nil
+		}
+		s.zeroRun = 0
 	}
 	end := len(s.img)
 	failing := s.Plan.Fail && !(s.Plan.Once && s.onceDone)
